@@ -70,17 +70,15 @@ extern "C" void h_record()
     unsigned char raw[SL + 1];
     for (int i = 0; i < SL; i++) raw[i] = (i < 8 || i >= SL - 34) ? nondet_u8() : 0;
 #if KIND == 0
-#if SL == 23 || SL == 25
-    VASSUME(raw[0] != 0x76 && raw[0] != 0xa9);     // special length without the special pattern
-#elif SL == 35 || SL == 67
-    VASSUME(raw[0] != 33 && raw[0] != 65);
+#if SL == 23 || SL == 25 || SL == 35 || SL == 67
+    raw[0] = 0x51;     // special length without the special pattern (concrete first byte: the pattern test must not fork the stream length)
 #endif
 #elif KIND == 1
     raw[0] = 0x76; raw[1] = 0xa9; raw[2] = 20; raw[23] = 0x88; raw[24] = 0xac;
 #elif KIND == 2
     raw[0] = 0xa9; raw[1] = 20; raw[22] = 0x87;
 #elif KIND == 3
-    raw[0] = 33; raw[1] = 2 | (nondet_u8() & 1); raw[34] = 0xac;
+    raw[0] = 33; raw[1] = 2 | (CB & 1); raw[34] = 0xac;   // key header concrete (2 or 3, tied to the CB macro) for the same reason
 #elif KIND == 4
     raw[0] = 65; raw[1] = 4; raw[66] = 0xac; memcpy(g_key, raw + 1, 65);
 #endif
